@@ -6,6 +6,8 @@ import Oracle.Rtmp
 import Oracle.Flv
 import Oracle.Amf0
 import Oracle.Aac
+import Oracle.Kxps
+import Oracle.Json
 
 namespace Oracle
 
@@ -14,7 +16,9 @@ def handlers : List (String × (String → List String → Option String)) := [
   ("rtmp.", Oracle.Rtmp.handle),
   ("flv.", Oracle.Flv.handle),
   ("amf0.", Oracle.Amf0.handle),
-  ("adts.", Oracle.Aac.handle), ("asc.", Oracle.Aac.handle), ("aac.", Oracle.Aac.handle)
+  ("adts.", Oracle.Aac.handle), ("asc.", Oracle.Aac.handle), ("aac.", Oracle.Aac.handle),
+  ("kxps.", Oracle.Kxps.handle),
+  ("json.", Oracle.Json.handle)
 ]
 
 def dispatch (op : String) (args : List String) : Option String :=
